@@ -1,44 +1,16 @@
 (* Correspondence driver: reads "ID FN ARGS..." lines on stdin, runs the extracted model,
-   prints "ID RESULT".  Integers decimal, byte strings lower-case hex ("-" = empty), lists comma-separated. *)
-open Model
+   prints "ID RESULT".  Integers decimal, byte strings lower-case hex ("-" = empty), lists comma-separated.
+   Each area contributes a module D_<area> with  run_case : string list -> string option. *)
+let areas : (string list -> string option) list = [
+  D_c13.run_case;
+  D_strat.run_case;
+]
 
-let rec pos_of_int n =
-  if n = 1 then XH else if n land 1 = 0 then XO (pos_of_int (n lsr 1)) else XI (pos_of_int (n lsr 1))
-let z_of_int n = if n = 0 then Z0 else if n > 0 then Zpos (pos_of_int n) else Zneg (pos_of_int (-n))
-let rec int_of_pos = function XH -> 1 | XO p -> 2 * int_of_pos p | XI p -> 2 * int_of_pos p + 1
-let int_of_z = function Z0 -> 0 | Zpos p -> int_of_pos p | Zneg p -> - (int_of_pos p)
-let rec nat_of_int n = if n <= 0 then O else S (nat_of_int (n - 1))
-let rec int_of_nat = function O -> 0 | S n -> 1 + int_of_nat n
-
-let zi s = z_of_int (int_of_string s)
-let unhex s =
-  if s = "-" then [] else
-  List.init (String.length s / 2) (fun i -> z_of_int (int_of_string ("0x" ^ String.sub s (2 * i) 2)))
-let hex l =
-  if l = [] then "-" else String.concat "" (List.map (fun z -> Printf.sprintf "%02x" (int_of_z z)) l)
-let split_on c s = if s = "" || s = "-" then [] else String.split_on_char c s
-let zs z = string_of_int (int_of_z z)
-
-let fault_name = function
-  | OutOfBounds -> "OutOfBounds" | Overflow -> "Overflow" | Underflow -> "Underflow"
-  | Unimplemented -> "Unimplemented" | Unreachable -> "Unreachable"
-  | CapacityExceeded -> "CapacityExceeded" | MissingKey -> "MissingKey" | OutOfFuel -> "OutOfFuel"
-
-let run_case (toks : string list) : string =
-  match toks with
-  | ["cksum"; kind; d; src; dst] ->
-    let d = unhex d and src = unhex src and dst = unhex dst in
-    zs (match kind with
-        | "ipv4hdr" -> ipv4_header_checksum d
-        | "icmp4" -> icmp_ipv4_checksum d
-        | "icmp6" -> icmp_ipv6_checksum d src dst
-        | "udp4" -> udp_ipv4_checksum d src dst
-        | "tcp4" -> tcp_ipv4_checksum d src dst
-        | "udp6" -> udp_ipv6_checksum d src dst
-        | _ -> failwith "kind")
-  | ["paris"; _fam; sp; dp; seq; src; dst] ->
-    hex (paris_udp (zi sp) (zi dp) (zi seq) (unhex src) (unhex dst))
-  | _ -> "?unknown-case"
+let run_case toks =
+  let rec go = function
+    | [] -> "?unknown-case"
+    | f :: rest -> (match f toks with Some r -> r | None -> go rest) in
+  go areas
 
 let () =
   try
